@@ -21,6 +21,7 @@ class TargetSocket:
         self.connected = False
         self.closed = False
         self.reply_filter = None           # optional fn(reply bytes) -> bytes (to corrupt replies)
+        self.answer = None                 # optional fn(frame bytes) -> reply bytes | None: answers a frame without the target
 
     # --- the Socket interface used by CIPDriver
     def connect(self, host, port):
@@ -38,6 +39,12 @@ class TargetSocket:
             # the bytes left the client but never reached the target (and nothing will come back)
             self.pending.append(None)
             return len(msg)
+        if self.answer is not None:
+            local = self.answer(bytes(msg))
+            if local is not None:
+                self.replies.append(local)
+                self.pending.append(local)
+                return len(msg)
         out = self.model.ask("target.frame " + sx.hexb(msg))
         if out.startswith("ok "):
             body = out[3:]
